@@ -228,14 +228,22 @@ type e2eCase struct {
 	Spec urlSpec `json:"spec"`
 	N    int     `json:"medias"`
 	Flow string  `json:"flow"` // play | record
+	// Back > 0 (play only): the served description has an additional back-channel media at index Back-1,
+	// which the client does not ask for: the medias it sees are numbered differently from the server's
+	Back int `json:"back_channel_at,omitempty"`
 }
 
-func (c e2eCase) key() string { return c.Spec.key() + string(byte('0'+c.N)) + c.Flow }
+func (c e2eCase) key() string {
+	return c.Spec.key() + string(byte('0'+c.N)) + c.Flow + string(byte('0'+c.Back))
+}
 
 func (c e2eCase) features() []string {
 	f := c.Spec.features()
 	if c.N > 1 {
 		f = append(f, fmt.Sprintf("medias%d", c.N))
+	}
+	if c.Back > 0 {
+		f = append(f, "unrequested-back-channel-before-a-media")
 	}
 	return f
 }
@@ -243,10 +251,13 @@ func (c e2eCase) features() []string {
 func (c e2eCase) simpler() []e2eCase {
 	var out []e2eCase
 	for _, s := range c.Spec.simpler() {
-		out = append(out, e2eCase{Spec: s, N: c.N, Flow: c.Flow})
+		out = append(out, e2eCase{Spec: s, N: c.N, Flow: c.Flow, Back: c.Back})
 	}
-	if c.N > 1 {
+	if c.N > 1 && c.Back == 0 {
 		out = append(out, e2eCase{Spec: c.Spec, N: c.N - 1, Flow: c.Flow})
+	}
+	if c.Back > 0 {
+		out = append(out, e2eCase{Spec: c.Spec, N: c.N, Flow: c.Flow})
 	}
 	return out
 }
@@ -258,9 +269,15 @@ type e2eSpace struct{ specs []urlSpec }
 
 func newE2ESpace(thorough bool) *e2eSpace { return &e2eSpace{specs: enumSpecs(thorough)} }
 
-func (s *e2eSpace) Len() int { return len(s.specs) * 3 * len(flows) }
+const perSpec = 3*2 + 2
+
+func (s *e2eSpace) Len() int { return len(s.specs) * perSpec }
 
 func (s *e2eSpace) At(i int) e2eCase {
+	if j := i % perSpec; j >= 6 {
+		return e2eCase{Spec: s.specs[i/perSpec], N: 2, Flow: "play", Back: j - 5}
+	}
+	i = i/perSpec*6 + i%perSpec
 	f := i % len(flows)
 	i /= len(flows)
 	n := i%3 + 1
